@@ -255,7 +255,7 @@ def add_command(d, rng, pos=None):
     k = rng.below(20)
     dirs = [n for n in nodes if d.kind(n, prod) == "dir"]
     c = {"name": name, "salt": 1 + rng.below(1000), "cosmetic": 0}
-    if k == 0 and len(d.cmds) > 0:
+    if k == 0 and len(d.cmds) > 0 and nodes:
         c.update(tool="phony", inputs=rng.shuffle(nodes)[:1 + rng.below(2)], outputs=["<%s>" % name])
     elif k == 1:
         c.update(tool="mkdir", inputs=[], outputs=["d%s" % name])
@@ -265,6 +265,8 @@ def add_command(d, rng, pos=None):
     else:
         ins = []
         for _ in range(1 + rng.below(3)):
+            if not nodes:
+                break
             x = rng.choice(nodes)
             if x not in ins:
                 ins.append(x)
@@ -376,7 +378,7 @@ class World:
 
     def bad(self, what, **kw):
         f = {"what": "[%s] %s" % (self.tag.split("-")[-1], what), "route": "e2e",
-             "input": {"history": list(self.trace), "desc": self.desc.to_json(), "dir": self.tag}}
+             "input": {"history": list(self.trace), "desc": json.loads(json.dumps(self.desc.to_json())), "dir": self.tag}}
         f.update(kw)
         self.fails.append(f)
 
@@ -441,8 +443,10 @@ class World:
         rc_cmds, rc_nodes = d.reach(roots)
         pre = {n: stat_tok(os.path.join(self.d, n)) for n in set(d.outputs()) | set(d.sources)}
         srcs = self.src_values(self.d)
-        missing_src = sorted(n for n in rc_nodes if n not in prod and not n.startswith("<") and srcs.get(n) is None and consumers(d, n))
+        missing_src = sorted(n for n in rc_nodes if n not in prod and not n.startswith("<") and srcs.get(n) is None
+                             and any(u["tool"] != "symlink" and u["name"] in rc_cmds for u in consumers(d, n)))
         broken = sorted(self.broken & rc_cmds)
+        self.last_missing = missing_src
         rc, log, out = self.run_tool(self.d, target, jobs, "build.db")
         self.trace.append({"op": label, "target": target, "jobs": jobs, "rc": rc, "log": log})
         post = {n: stat_tok(os.path.join(self.d, n)) for n in set(d.outputs()) | set(d.sources)}
@@ -457,7 +461,7 @@ class World:
         expect_fail = bool(missing_src or broken)
         if expect_fail:
             self.stats["failed"] += 1
-            failing = set(broken) | {c["name"] for c in d.cmds if any(i in missing_src for i in c["inputs"])}
+            failing = set(broken) | {c["name"] for c in d.cmds if c["tool"] != "symlink" and any(i in missing_src for i in c["inputs"])}
             down = d.downstream(failing)
             if rc == 0:
                 self.bad("%s of '%s': the build reports success although commands %s cannot succeed (%s)" % (
@@ -467,7 +471,7 @@ class World:
                     self.bad("%s of '%s': %s executed although it consumes (transitively) an output of a failed command %s" % (
                         label, target, nm, sorted(failing)), clause="no-downstream-execution", command=nm)
                 c = byname.get(nm)
-                if c and any(i in missing_src for i in c["inputs"]):
+                if c and c["tool"] != "symlink" and any(i in missing_src for i in c["inputs"]):
                     self.bad("%s of '%s': %s executed although its declared input is missing" % (label, target, nm),
                              clause="no-downstream-execution", command=nm)
             # what the failed build may have recorded: unknown from outside for the commands that ran
@@ -689,7 +693,8 @@ def run_history(exe, base, idx, rng, thorough):
                 ok1, log1 = w.build(t, j, "failing build")
                 ok2, log2 = w.build(t, j, "repeated failing build")
                 cs, _ = d.reach(d.targets()[t])
-                if c["name"] in cs and c["name"] not in d.downstream(w.broken) and c["name"] not in log2:
+                # (when a source is missing as well, the tool may cancel the build before it gets to the broken command)
+                if c["name"] in cs and c["name"] not in d.downstream(w.broken) and c["name"] not in log2 and not w.last_missing:
                     w.bad("repeated failing build of '%s': the failed command %s was not attempted again" % (t, c["name"]),
                           clause="failed-retried", command=c["name"], mode=mode)
                 os.unlink(os.path.join(w.d, "ctl", "%s.%s" % (c["name"], mode)))
@@ -735,7 +740,8 @@ def run_history(exe, base, idx, rng, thorough):
 
 
 def probe_directory_attribute(exe, base):
-    """F19: a node declared `type: directory` must be a directory node (its tree is tracked), exactly like `is-directory: true`."""
+    """F19: a node declared `type: directory` must be a directory node (its tree is tracked), exactly like `is-directory: true`.
+    The node is named `sd/` (a directory node by default): before the fix the explicit attribute turned it into a PLAIN node."""
     fails = []
     for attr in ("type: directory", "is-directory: true"):
         d = os.path.join(base, "f19-" + attr.split(":")[0])
@@ -743,8 +749,8 @@ def probe_directory_attribute(exe, base):
         os.makedirs(os.path.join(d, "sd"))
         open(os.path.join(d, "sd", "a"), "w").write("1\n")
         open(os.path.join(d, "build.llbuild"), "w").write(
-            'client:\n  name: basic\n  version: 0\n\ntargets:\n  "": ["out"]\n\nnodes:\n  "sd":\n    %s\n\ncommands:\n  "C":\n    tool: shell\n'
-            '    inputs: ["sd"]\n    outputs: ["out"]\n    args: ["/bin/sh", "-c", "echo C >> log; cat sd/* > out"]\n' % attr)
+            'client:\n  name: basic\n  version: 0\n\ntargets:\n  "": ["out"]\n\nnodes:\n  "sd/":\n    %s\n\ncommands:\n  "C":\n    tool: shell\n'
+            '    inputs: ["sd/"]\n    outputs: ["out"]\n    args: ["/bin/sh", "-c", "echo C >> log; cat sd/* > out"]\n' % attr)
         logs = []
         for step in range(2):
             try:
@@ -775,7 +781,7 @@ class Check(PropertyCheck):
     module = "LLBuild.Props.C08"
     theorems = ["LLBuild.BuildSystemClient." + t for t in (
         "C08_client_WF", "C08_outputs_clean", "C08_inputs_current", "C08_clean_source", "C08_clean_produced", "C08_clean_command",
-        "C08_clean_is_eval", "C08_clean_unique", "C08_rule_dispatch", "C08_file_input_valid_iff", "C08_command_valid_sound",
+        "C08_clean_is_eval", "C08_clean_unique", "C08_rule_dispatch", "C08_rule_signature_sources", "C08_file_input_valid_iff", "C08_command_valid_sound",
         "C08_never_valid", "C08_missing_command_forces", "C08_node_sig_tracks_producers", "C08_node_sig_changes",
         "C08_directory_attribute")]
     extractors = ["x_bsrules"]
@@ -824,7 +830,7 @@ class Check(PropertyCheck):
         [t.start() for t in ts]
         [t.join() for t in ts]
         for e in errs[:5]:
-            res.mismatches.append({"stream": "c08-history", "input": e, "model": "", "impl": "harness exception"})
+            res.mismatches.append({"stream": "c08-history", "input": e[-500:], "model": "", "impl": "harness exception: " + e[:200]})
         tot = {}
         cases = []
         for w in worlds:
